@@ -28,14 +28,14 @@ def matEntries : List String → List (String × String)
       if z.contains '=' then matEntries (f :: r)
       else ((z.splitOn ".").headD z, f) :: matEntries r
 
-/-- nuclide name TRIPOLI-4 expects for a ZAID: symbol ++ mass number, `000` = natural element -/
+/-- nuclide name for atomic number `z` and mass number `a`: symbol ++ mass number, `a = 0` = natural element -/
+def nuclideOf (z a : Nat) : Option String :=
+  (elementSymbol? z).map fun sym => sym ++ (if a == 0 then "-NAT" else toString a)
+
+/-- nuclide name TRIPOLI-4 expects for a ZAID (`ZZZAAA`, at least four digits) -/
 def nuclideName? (zaid : String) : Option String := do
   let n ← zaid.toNat?
-  if zaid.length < 4 then none else
-  let z := n / 1000
-  let a := n % 1000
-  let sym ← elementSymbol? z
-  pure (sym ++ (if a == 0 then "-NAT" else toString a))
+  if zaid.length < 4 then none else nuclideOf (n / 1000) (n % 1000)
 
 def isNegLit (s : String) : Bool := s.trimAscii.toString.startsWith "-"
 def absLit (s : String) : String := let t := s.trimAscii.toString; if t.startsWith "-" then (t.drop 1).toString else t
